@@ -62,8 +62,9 @@ CHECKS = {
         'with symbolic key values, for every column whose evaluator arm builds a number or a date, function keys, one- and two-key lists and symbolic '
         'directions; z3 decides that the result is the lexicographic composition of numeric / chronological / string order with desc reversed. '
         'Parser::parse_order_by runs on symbolic lexems and the comparator induced by its result is decided equal to the textbook one. '
-        'Counterexamples are replayed through the real parser and the real Criteria::cmp in a native test.',
-   note=TRUST + 'Assumed: T = String with byte-lexicographic Ord (model); key values as rendered by the evaluator: decimals < 1000, fixed-width dates (parse_datetime '
+        '(clause_keys) the real lexer and the real Parser::parse on `order by E` for ten key expressions E (arithmetic, brackets, leading sign or number, function calls), with and without a '
+        'WHERE clause (symbolic choice): the key is the same expression tree as `select E`. Counterexamples are replayed through the real parser and the real Criteria::cmp in a native test.',
+   note=TRUST + 'Assumed: T = String with byte-lexicographic Ord (model); key values as rendered by the evaluator: decimals < 1000 (signed for the arithmetic keys size - 100 / 100 - size), fixed-width dates (parse_datetime '
         'on a rendered date summarised; C13), texts from an 8-entry table; column classification read from the Variant constructor in get_field_value. '
         'Permutation / sortedness of the buffer itself is TopN (C06). Bounds: key lists <= 2 keys; ORDER BY clauses <= 3 (quick) / 4 (thorough) tokens.',
    technique=TECH),
